@@ -328,6 +328,32 @@ Definition run_read_eval (ts : list tok) : list N :=
   | _ => bad
   end.
 
+(** D <n> <cmd>* <ast>: evaluate with a Stepper whose callback returns the given commands in order
+    (0 NoOp, 1 Next, 2 In, 3 Out; NoOp when exhausted).  Output: outcome | trace | forms handed to the callback *)
+Definition cmd_of (z : Z) : dcmd :=
+  if Z.eqb z 0 then CNoOp else if Z.eqb z 1 then CNext else if Z.eqb z 2 then CIn else if Z.eqb z 3 then COut else CBad.
+
+Definition run_stepper (ts : list tok) : list N :=
+  match ts with
+  | TNum n :: r =>
+      match take_zs (Z.to_nat n) r with
+      | Some (cs, r1) =>
+          match parse_value r1 with
+          | Some (ast, []) =>
+              let st0 := set_dbg init_state (Some (mkDbg false false false (map cmd_of cs) [])) in
+              let '(o, st) := eval_dbg RUN_FUEL 1%nat ast ROOT st0 in
+              show_outcome o ++ s_ "| " ++ show_val (VList (rev (trace st)) None) ++ s_ "| " ++
+              match dbg st with
+              | Some g => show_val (VList (map fst (rev (dlog g))) None)
+              | None => s_ "-"
+              end
+          | _ => bad
+          end
+      | None => bad
+      end
+  | _ => bad
+  end.
+
 Definition run_tokens (ts : list tok) : list N :=
   match ts with
   | TTag c :: r =>
@@ -340,6 +366,7 @@ Definition run_tokens (ts : list tok) : list N :=
       else if N.eqb c (tagc "W") then run_print_read r
       else if N.eqb c (tagc "A") then run_add_preamble r
       else if N.eqb c (tagc "E") then run_read_eval r
+      else if N.eqb c (tagc "D") then run_stepper r
       else if N.eqb c (tagc "Y") then run_read_preamble r
       else if N.eqb c (tagc "X") then run_read_print_read r
       else bad
